@@ -42,7 +42,7 @@ func (r *Run) invoke(fr *Frame, st *State, instr ssa.Instruction, cc *ssa.CallCo
 		if v == nil {
 			return []Outcome{{st: st}}
 		}
-		return []Outcome{{st, []*Val{v}}}
+		return []Outcome{{st: st, rets: []*Val{v}}}
 	}
 	name := r.eng.calleeName(cc)
 	ord := r.eng.callOrdinal(instr, name)
@@ -78,12 +78,12 @@ func (r *Run) callStatic(fr *Frame, st *State, instr ssa.Instruction, fn *ssa.Fu
 	name := fnName(fn)
 	switch name {
 	case "fmt.Sprintf":
-		return []Outcome{{st, []*Val{strVal(r.sprintf(fr, st, instr, args))}}}
+		return []Outcome{{st: st, rets: []*Val{strVal(r.sprintf(fr, st, instr, args))}}}
 	case "fmt.Errorf":
 		msg := r.sprintf(fr, st, instr, args)
-		return []Outcome{{st, []*Val{r.newError(st, msg)}}}
+		return []Outcome{{st: st, rets: []*Val{r.newError(st, msg)}}}
 	case "errors.New":
-		return []Outcome{{st, []*Val{r.newError(st, args[0].T)}}}
+		return []Outcome{{st: st, rets: []*Val{r.newError(st, args[0].T)}}}
 	}
 	if ct := r.eng.C.ByName[name]; ct != nil && !ct.Inline && (ct.Kind == "func" || ct.Kind == "extern") {
 		return r.applyContract(fr, st, instr, ct, name, site, args, fn.Signature)
@@ -97,7 +97,7 @@ func (r *Run) callStatic(fr *Frame, st *State, instr ssa.Instruction, fn *ssa.Fu
 		outs := r.execFunc(fn, st, args, bind, fr.depth+1, false)
 		var res []Outcome
 		for _, o := range outs {
-			res = append(res, Outcome{o.st, resultVal(fn.Signature, o.rets)})
+			res = append(res, Outcome{st: o.st, rets: resultVal(fn.Signature, o.rets)})
 		}
 		return res
 	}
@@ -137,7 +137,7 @@ func (r *Run) unknownCall(fr *Frame, st *State, instr ssa.Instruction, name, sit
 	for i := 0; i < sig.Results().Len(); i++ {
 		rets = append(rets, r.freshVal(st, sig.Results().At(i).Type(), "r."+shortName(name)))
 	}
-	return []Outcome{{st, resultVal(sig, rets)}}
+	return []Outcome{{st: st, rets: resultVal(sig, rets)}}
 }
 
 func shortName(n string) string {
@@ -253,6 +253,13 @@ func (r *Run) applyContract(fr *Frame, st *State, instr ssa.Instruction, ct *Con
 		used = true
 		st.assume(r.evalBool(post, cl.Expr))
 	}
+	for _, cl := range ct.TrustedEnsures {
+		if r.prop != "" && ct.Kind == "func" && !hasProp(ct.clauseProps(cl), r.prop) {
+			continue
+		}
+		st.assume(r.evalBool(post, cl.Expr))
+		r.note("assumption", "%s: trusted postcondition %s (not checked against the body): %s", name, cl.Label, cl.Expr)
+	}
 	_ = used
 	if ct.Kind == "func" {
 		r.assumed[name] = true
@@ -267,7 +274,7 @@ func (r *Run) applyContract(fr *Frame, st *State, instr ssa.Instruction, ct *Con
 			r.emit(st, "crashinv:"+cl.Label+"@"+site, "crashinv", propsOr(cl.Props, defProps), g)
 		}
 	}
-	return []Outcome{{st, resultVal(sig, rets)}}
+	return []Outcome{{st: st, rets: resultVal(sig, rets)}}
 }
 
 func (r *Run) siteChecks(fr *Frame, st *State, instr ssa.Instruction, callerCt *Contract, name, site string, vars map[string]*Val, isSend bool) {
